@@ -85,8 +85,12 @@ func TestVerifC06Unit(t *testing.T) {
 		out.emit(c)
 	}
 	// exhaustive: all arrival sequences of length <= 6 over {0..3}, W in {1,2,3}
+	maxLen := 5
+	if vIsThorough() {
+		maxLen = 6
+	}
 	for _, w := range []int{1, 2, 3} {
-		for l := 1; l <= 6; l++ {
+		for l := 1; l <= maxLen; l++ {
 			total := 1
 			for i := 0; i < l; i++ {
 				total *= 4
